@@ -95,6 +95,11 @@ def applyCfg (s : St) : List String → Option St
   | ["register", sym] => some { s with params := { s.params with registered := sym :: s.params.registered } }
   | ["whitelist", a] => some { s with params := { s.params with whitelist := a :: s.params.whitelist } }
   | ["block", a] => some { s with params := { s.params with blocked := a :: s.params.blocked } }
+  | ["marginpool", sym, b] => do
+      let on ← parseBool b
+      let l := s.params.marginPools.filter (· != sym)
+      some { s with params := { s.params with marginPools := if on then sym :: l else l } }
+  | ["removalthreshold", d] => do some { s with params := { s.params with removalThreshold := ← parseDec d } }
   | ["poolmargin", sym, a, b, c, d] => do
       -- what x/margin leaves on a pool: liabilities are bookkeeping only, custody is carved out of the
       -- pool's own balance (balance + custody unchanged, no coins move)
